@@ -17,7 +17,7 @@ RULE = ('case = a sim chain of 4..9 blocks with 1..64 real transactions each; fo
 ASSUMPTIONS = ['SHA-256d collision resistance', 'txid of the generated legacy transactions taken from an independent parser (vlib/ref/minitx.py)',
                'mutations that leave the recomputed root unchanged (side flip of a duplicated last node, position bits above the tree depth) '
                'are expected to still verify: the statement\'s criterion is met; counted as ineffective']
-REQUIRED_HITS = ['reorg.in_flight_checked', 'reorg.cache_checked', 'reuse.checked', 'genuine.accepted', 'genuine.via_single_batch', 'mut.branch_digit', 'mut.pos_bit', 'mut.truncate', 'mut.extend', 'mut.tx_byte',
+REQUIRED_HITS = ['planted.checked', 'reorg.in_flight_checked', 'reorg.cache_checked', 'reuse.checked', 'genuine.accepted', 'genuine.via_single_batch', 'mut.branch_digit', 'mut.pos_bit', 'mut.truncate', 'mut.extend', 'mut.tx_byte',
                  'mut.height', 'mut.height_no_header', 'mut.foreign_proof', 'mut.ineffective_still_verifies', 'shape.odd_level', 'shape.single_tx',
                  'shape.64']
 MAXT = (1 << 255) - 1
@@ -240,6 +240,46 @@ async def _run(rec, case):
                           f'{"does not reach" if not want else "reaches"} the header stored at that height now, but is_verified={obj.is_verified}',
                           {'which': which, 'height': h})
         rec.case(['reorg_in_flight', which, len(leaves)], nontrivial=True)
+    # ---- (3) a batch of headers with an invalid one in it (no proof of work) whose Merkle root commits to an invented payment: whatever
+    # part of the batch the validator refuses is not "the locally validated header at that height", so the payment's genuine-looking
+    # proof must not verify there (seeded break C08-F: connect() stored the refused header for some batch shapes)
+    tip = len(hdrs)
+    nb = r.choice([3, 4, 5, 7, 9])
+    j = r.randrange(0, nb)
+    batch, planted = [], None
+    base = [bytes(hdrs.io.getvalue()[i * 112:(i + 1) * 112]) for i in range(tip)]
+    for k in range(nb):
+        blk = new_block(r.choice([1, 2, 3]))
+        root = M.root([t[1] for t in blk])
+        good = mine_on(base + batch, root, ts_delta=803)
+        if k == j:
+            hd = R.unpack(good)
+            target = min(R.next_target(MAXT, R.unpack((base + batch)[-2]), R.unpack((base + batch)[-1])), R.compact_to_target(hd['bits']))
+            good = R.mine(hd['version'], hd['prev'], hd['merkle'], hd['claimtrie'], hd['timestamp'], hd['bits'], target, want_valid=False)
+            planted = blk
+        batch.append(good)
+    try:
+        await hdrs.connect(tip, b''.join(batch))
+    except Exception as e:  # noqa
+        rec.log('planted.connect_raised.' + type(e).__name__)
+    rec.hit('planted.checked')
+    pi = r.randrange(len(planted))
+    praw, pleaves = planted[pi][0], [t[1] for t in planted]
+    ptxid = minitx.parse(praw)['txid']
+    pproof = {'merkle': [b[::-1].hex() for b in M.branch(pleaves, pi)], 'pos': pi, 'block_height': tip + j}
+    obj = Transaction(praw, height=tip + j)
+    try:
+        await ledger.maybe_verify_transaction(obj, tip + j, pproof)
+    except Exception as e:  # noqa
+        rec.log('planted.verify_raised.' + type(e).__name__)
+    if obj.is_verified:
+        rec.violation('C08/verified-without-valid-proof/against-a-header-the-validator-refused',
+                      f'header {j} of a {nb}-header batch connected at {tip} has no proof of work; a transaction committed by its Merkle root was '
+                      f'recorded verified at height {tip + j} (len(headers) is now {len(hdrs)})', {'batch': nb, 'bad_index': j, 'tip': tip})
+    rec.case(['planted', nb, j], nontrivial=True)
+    # model the valid prefix of the batch that was legitimately stored
+    for k in range(min(j, len(hdrs) - tip)):
+        chain.append(batch[k])
     # ---- (2) verified through the cache, then a reorganisation replaces its block, then looked up through the cache again
     f = r.randrange(1, nh)                   # first replaced height
     victim = blocks[f] if chain[f] != fork_hdr or f != h else alt
@@ -256,7 +296,7 @@ async def _run(rec, case):
         return
     # the server's new chain: forks at f, is longer than ours; the victim transaction is back in the mempool
     v2 = list(chain[:f])
-    for k in range(nh - f + 1):
+    for k in range(len(hdrs) - f + 1):
         v2.append(mine_on(v2, M.root([t[1] for t in new_block(1)]), ts_delta=799))
     net.server_chain = v2
     try:
